@@ -177,7 +177,9 @@ class frame_fp_set:
         yield "nothing-written", both(eq(s.focus_part, old.focus_part), count_ev(s.trace, "_invalidate") == 0, len([e for e in cur().trace if e[0] == "write"]) == 0)
 
     def effects(old, s, a, result):
+        # callee use: what a successful assignment does (the clauses above are then assumed about exactly this)
         s.fields["focus_part"] = a.part
+        s.trace.append(("_invalidate",))
 
 
 # ------------------------------------------------------------------------------------------------ C09 entry points
